@@ -261,6 +261,11 @@ func propC20(t *rapid.T, is64 bool) {
 			}
 		}
 		skipMin, skipMax := false, false
+		// (a query over everything first: nothing it leaves behind may show in the query over the found-set)
+		if len(cols) > len(found) {
+			x.MinMax(workers, false, nil, true)
+			x.MinMax(workers, true, cols, false)
+		}
 		if g := x.MinMax(workers, false, found, foundNil); !skipMin && g.Cmp(mn) != 0 {
 			fail("MinMax(MIN, workers=%d, found=%s%v) = %s, want %s", workers, fclass, found, g, mn)
 		}
